@@ -11,6 +11,8 @@ string creator_file (string file) { return "Root"; }
 string get_root_uid () { return "Root"; }
 string get_bb_uid () { return "Backbone"; }
 int valid_seteuid (object ob, string newuid) { return 1; }
+// ed: a file name that does not start with '/' is made absolute by the master
+string make_path_absolute (string s) { return "/d/" + s; }
 int valid_link (string from, string to) { if (!quiet) VL ("valid_link [" + from + "] [" + to + "]"); return 1; }
 
 void set_policy (string kind, string s, string q) { pol = kind; pstr = s; quiet = (q == "1"); }
@@ -23,6 +25,9 @@ private mixed verdict (string fn, string path, mixed who, string op) {
     case "deny": v = 0; break;
     case "echo": v = path; break;
     case "fixed": v = pstr; break;
+    case "ro": v = (fn == "valid_read"); break;
+    case "wo": v = (fn == "valid_write"); break;
+    case "ropath": v = !(fn == "valid_write" && path == pstr); break;
     case "raise": boom = 1; break;
     case "raiseon": if (path == pstr) boom = 1; else v = 1; break;
     case "odd":
